@@ -245,7 +245,7 @@ func restoreCorr(c *Ctx) {
 		c.Res.CaseInputs = appendCase(c.Res.CaseInputs, "mismatch_restore", map[string]interface{}{"src": src, "decorate": decorate, "variant": variant})
 		c.Res.Traces++
 	}
-	srcs := corrSources(c, c.N(10), 2500)
+	srcs := corrSources(c, c.N(3), 1500)
 	for i, s := range srcs {
 		add(s, 0, "")
 		add(s, 6, "")
